@@ -2,6 +2,7 @@ package runner
 
 import (
 	"os"
+	"path/filepath"
 
 	"github.com/reedom/convergen/pkg/config"
 	"github.com/reedom/convergen/pkg/generator"
@@ -18,6 +19,20 @@ import (
 // the parsed base code. Finally, it generates the output files using the generated code and
 // the provided configuration options.
 func Run(conf config.Config) error {
+	// The package loader and goimports both resolve packages relative to the process
+	// working directory. Work from the directory of the input file so that the result
+	// does not depend on where the tool was started.
+	if absIn, err := filepath.Abs(conf.Input); err == nil {
+		absOut, errOut := filepath.Abs(conf.Output)
+		absLog, errLog := conf.Log, error(nil)
+		if conf.Log != "" {
+			absLog, errLog = filepath.Abs(conf.Log)
+		}
+		if errOut == nil && errLog == nil && os.Chdir(filepath.Dir(absIn)) == nil {
+			conf.Input, conf.Output, conf.Log = absIn, absOut, absLog
+		}
+	}
+
 	if conf.Log != "" {
 		f, err := os.OpenFile(conf.Log, os.O_RDWR|os.O_TRUNC|os.O_CREATE, 0644)
 		if err != nil {
